@@ -12,6 +12,10 @@ checks = {
    text="(1) Setup structure, exhaustively per system: every selector column and the three permutation columns are recomputed from the constraint list and committed with the Lagrange SRS and must equal the verifying-key digests; for every pair of the 3n wire positions 'same permutation cycle' iff 'same wire' (catalogue circuits and the sparse systems of the API program generator). (2) The prover is the environment: every single structured edit of every proof element, claimed value, list and public witness, and pairs {witness edit} x {list edit}, offered in memory and through both encodings, must be rejected while genuine pairs are accepted. (3) Every single-row corruption of L/R/O — a violated gate, or a violated copy constraint with every gate satisfied — pushed through the real prover via the post-solve hook must be rejected.",
    note="Bounded adversary (structured edit alphabet, <=2 departures); a-priori oracle 'Fiat-Shamir binds every element' instead of a second PLONK verifier; gnark-crypto KZG commit trusted for recomputing digests.",
    technique="exhaustive structural check of Setup output against the constraint list + deviation-bounded exploration of adversarial prover answers against the real verifier"),
+ "C03": dict(level=MC, ref="DESIGN.md §2 C03",
+   text="(P) Exhaustive product catalogue+edge shapes (no secret input, single gate, only commitments, 0-3 commitments of public/secret/mixed/previously committed values, constant-folded parts) x {Groth16, PLONK} x curves x every consistent option tuple (hash-to-field, challenge hash, KZG folding hash, statistical ZK, all together) x assignments: Setup/Prove/Verify succeed for satisfying assignments, Prove returns an error for the others. (S) Stateless model checking of the real provers: the instrumented PLONK and Groth16 provers run under the controlled scheduler and EVERY interleaving of their stage goroutines within the delay bound is executed, for a valid witness (the proof must verify), an invalid witness, and every single failure injected at an `err != nil` site: the error must be returned and every goroutine must terminate (deadlock = no enabled thread, detected exactly).",
+   note="(S) delay bound 1 quick / 2 thorough on the bn254 instantiation; gnark-crypto kernels and hint functions are atomic steps; (P) quick = 3 curves.",
+   technique="exhaustive configuration product + stateless model checking of the provers' goroutine pipelines under a controlled scheduler with single-fault injection"),
  "C04": dict(level=MC, ref="DESIGN.md §2 C04, §1.6b",
    text="Bounded-exhaustive enumeration of straight-line API programs (all of depth 1 over the full operand pool, all connected programs of depth 2 and a linear sub-alphabet at depth 3), each compiled by both real builders under every compress threshold and solved by the real solver on all of F_47 (or a boundary alphabet) and on boundary values of the curve fields; verdict and every exposed value must equal a big.Int reference of the documented meaning and any exposed value off by one must fail.",
    note="Reference = doc comments of frontend.API; depth bound 2 (3 for the linear sub-alphabet); large fields on boundary alphabets only.",
